@@ -627,8 +627,8 @@ def quick_cases():
             for p in PATHS:
                 for ex, pend in states:
                     out.append(dict(cfg, op="install", mode="offset", files=[{"p": p, "ex": ex, "pend": pend}]))
-    # 2. uninstall, one file (ConfigProtectUninstall only reads env.d)
-    for cfg in base + [_cfg("/etc /opt/c", None, i, d) for i, d in IGNORES["quick"][1:]]:
+    # 2. uninstall, one file (protection configured through env.d and through the domain settings)
+    for cfg in base + [_cfg("/etc /opt/c", None, i, d) for i, d in IGNORES["quick"][1:]] + extra[:2]:
         for mode in ("root", "offset"):
             for p in PATHS:
                 for live in ("A", "R", "D") if cfg["ignore"] is None else ("R", "D"):
@@ -636,6 +636,7 @@ def quick_cases():
     # 3. replace: file shipped by both packages + optionally a file dropped by the new package, in the same directory
     rcfgs = [_cfg(pr, m) for pr in ("/etc", "/etc /opt/c") for m in (None, "/etc/m")] + [_cfg("/etc", None, "*.ign", "ss"), _cfg("/etc /opt/c", "/etc/m", "*.ign", "ss")]
     rcfgs += [_cfg(None, None), _cfg("/opt/c/", None)]  # CONFIG_PROTECT unset / without /etc: pkgcore's built-in /etc
+    rcfgs += extra[:2]  # protection configured through the domain settings (extra_protects), not env.d
     for cfg in rcfgs:
         for mode in ("root", "offset"):
             for p in PATHS:
